@@ -322,5 +322,99 @@ def rule_r4(ctx) -> RuleResult:
     return rr
 
 
+def _depends(stmts: list, dep: set, ctrl: bool = False, seeds: frozenset = frozenset()) -> None:
+    """forward propagation of `depends on a seed variable` through a loop-free statement list (data dependence through
+    assignments, control dependence through tests that read a dependent name); `dep` is updated in place.  Callers
+    record what they need through the hook _depends.at(stmt, dep, ctrl)."""
+    for st in stmts:
+        hook = getattr(_depends, "at", None)
+        if hook is not None:
+            hook(st, dep, ctrl)
+        reads = lambda e: {n.id for n in ast.walk(e) if isinstance(n, ast.Name) and isinstance(n.ctx, ast.Load)}  # noqa: E731
+        if isinstance(st, (ast.Assign, ast.AugAssign, ast.AnnAssign)) and getattr(st, "value", None) is not None:
+            tg = st.targets if isinstance(st, ast.Assign) else [st.target]
+            d = ctrl or bool(reads(st.value) & dep) or (isinstance(st, ast.AugAssign) and bool(reads(st.target) & dep))
+            for t in tg:
+                for nm in [n.id for n in ast.walk(t) if isinstance(n, ast.Name)]:
+                    if d:
+                        dep.add(nm)
+                    elif not ctrl and isinstance(t, ast.Name) and not isinstance(st, ast.AugAssign) and nm not in seeds:
+                        dep.discard(nm)   # strong update outside any dependent branch (a seed is a source wherever it is assigned)
+        elif isinstance(st, ast.If):
+            c = ctrl or bool(reads(st.test) & dep)
+            d1, d2 = set(dep), set(dep)
+            _depends(st.body, d1, c, seeds)
+            _depends(st.orelse, d2, c, seeds)
+            dep.clear()
+            dep.update(d1 | d2)
+        elif isinstance(st, ast.Try):
+            _depends(st.body, dep, ctrl, seeds)
+            for h in st.handlers:
+                _depends(h.body, dep, ctrl, seeds)
+            _depends(st.orelse, dep, ctrl, seeds)
+            _depends(st.finalbody, dep, ctrl, seeds)
+        elif isinstance(st, (ast.For, ast.While, ast.With)):
+            _depends(st.body, dep, ctrl, seeds)
+            _depends(st.body, dep, ctrl, seeds)
+
+
+def rule_r5(ctx) -> RuleResult:
+    """`{{#explode:s|d|-n|limit}}`: a negative position counts from the end of the pieces that are *returned*, and a limit
+    merges the tail into the last piece -- so the number a negative position is resolved against has to depend on the limit
+    (PHP: explode($d, $s, $limit) first, then count()).  Information-flow rule: at the statement that turns a negative
+    position into an index, the value it adds depends (by data or control) on the parsed limit.  Resolving first and applying
+    the limit afterwards, in whichever form, breaks exactly the calls that give both (seeds C18-2B, C18-4B)."""
+    rr = RuleResult("C18.R5", "#explode resolves a negative position against the piece count after the limit was applied", min_instances=1)
+    dotted = "parserfns.explode_fn"
+    fn = ctx.fn(dotted)
+
+    def arg_var(idx: int):
+        """local parsed with int() from args[idx] (through one intermediate string local)"""
+        strs = set()
+        for n in walk_no_nested(fn):
+            if isinstance(n, ast.Assign) and len(n.targets) == 1 and isinstance(n.targets[0], ast.Name):
+                if any(isinstance(x, ast.Subscript) and unparse(x.value) == "args" and isinstance(x.slice, ast.Constant) and x.slice.value == idx
+                       for x in ast.walk(n.value)):
+                    strs.add(n.targets[0].id)
+        for n in walk_no_nested(fn):
+            if isinstance(n, ast.Assign) and len(n.targets) == 1 and isinstance(n.targets[0], ast.Name) and isinstance(n.value, ast.Call) \
+                    and unparse(n.value.func) == "int" and n.value.args and isinstance(n.value.args[0], ast.Name) and n.value.args[0].id in strs:
+                return n.targets[0].id
+        return None
+
+    pos, lim = arg_var(2), arg_var(3)
+    if pos is None or lim is None:
+        raise AnalysisError("explode_fn: the locals parsed from the position / limit arguments were not recognised")
+    found = []
+
+    def at(st, dep, ctrl):
+        # the normalisation: an assignment to the position local under `pos < 0`
+        if isinstance(st, ast.If) and isinstance(st.test, ast.Compare) and len(st.test.ops) == 1 and isinstance(st.test.ops[0], ast.Lt) \
+                and unparse(st.test.left) == pos and isinstance(st.test.comparators[0], ast.Constant) and st.test.comparators[0].value == 0:
+            for b in st.body:
+                if isinstance(b, (ast.Assign, ast.AugAssign)):
+                    tg = b.targets[0] if isinstance(b, ast.Assign) else b.target
+                    if isinstance(tg, ast.Name) and tg.id == pos:
+                        reads = {n.id for n in ast.walk(b.value) if isinstance(n, ast.Name)} - {pos}
+                        found.append((b, bool(reads & dep) or ctrl, sorted(reads)))
+
+    _depends.at = at
+    try:
+        _depends([s_ for s_ in fn.body], {lim}, False, frozenset([lim]))
+    finally:
+        _depends.at = None
+    if not found:
+        raise AnalysisError("explode_fn: the statement that resolves a negative position (`if {} < 0: {} = ...`) was not recognised".format(pos, pos))
+    for st, ok, reads in found:
+        if ok:
+            rr.ok(dotted, "`{}` adds a count that depends on the limit".format(unparse(st)[:60]), {"reads": reads})
+        else:
+            rr.bad(Finding("C18.R5", PFN, dotted, unparse(st)[:80],
+                           "a negative position is resolved against a piece count that does not depend on the limit ({}): with both a negative "
+                           "position and a limit smaller than the number of pieces the wrong piece (or nothing) is returned, e.g. "
+                           "{{{{#explode:a,b,c,d|,|-1|2}}}} must give `b,c,d`".format(", ".join(reads) or "a constant"), st.lineno))
+    return rr
+
+
 def run(ctx) -> list:
-    return [rule_r1(ctx), rule_r2(ctx), rule_r3(ctx), rule_r4(ctx)]
+    return [rule_r1(ctx), rule_r2(ctx), rule_r3(ctx), rule_r4(ctx), rule_r5(ctx)]
